@@ -1,5 +1,34 @@
+import SamVerif.Model.Lexer
 import Driver.Util
-/-! Line-protocol driver for property C14 (model side). Not implemented yet. -/
+/-! Protocol `lex` of C14: token kinds, texts and spans of the scanner model
+(`SamVerif.Lexer.tokenize`), format `T <kind>:<hextext>@l0.c0-l1.c1;...[ P]`
+(= `harness/src/bin/c14.rs`). -/
+namespace Driver.C14
+open SamVerif.Lexer Driver
+
+def kindName : Kind → String
+  | .kw => "kw" | .op => "op" | .upper => "upper" | .lower => "lower" | .str => "str"
+  | .int => "int" | .line => "line" | .block => "block" | .doc => "doc" | .error => "error"
+
+def showTok (t : Token) : String :=
+  kindName t.kind ++ ":" ++ hexOfBytes t.text ++ "@" ++
+    s!"{t.start.line}.{t.start.col}-{t.stop.line}.{t.stop.col}"
+
+def showResult (r : Result) : String :=
+  let toks := if r.toks.isEmpty then "-" else ";".intercalate (r.toks.map showTok)
+  let tail := match r.fin with
+    | .ok => ""
+    | .panic => " P"
+    | .fuel => " FUEL"
+  s!"T {toks}{tail}"
+
+def step (st : Unit) (line : String) : Unit × String :=
+  match words line with
+  | ["lex", h] => (st, showResult (tokenize (bytesOfHex h)))
+  | _ => (st, "bad-op")
+
+end Driver.C14
+
 def main (_args : List String) : IO UInt32 := do
-  IO.eprintln "drv-c14: not implemented yet"
-  return 2
+  Driver.runLoop () Driver.C14.step
+  return 0
